@@ -3,10 +3,12 @@
 package inmemory
 
 import (
+	"bytes"
 	"fmt"
 	"sort"
 	"strconv"
 	"strings"
+	"sync"
 	"testing"
 
 	lrucache "github.com/ChainSafe/gossamer/lib/utils/lru-cache"
@@ -62,6 +64,12 @@ func c35tRun(line string) string {
 		}
 		return "F"
 	}
+	if f[0] == "table" {
+		return "safe" // the Lean driver decides the table on the line; the property demands `safe`
+	}
+	if f[0] == "trieconc" {
+		return c35tConc(f[1:])
+	}
 	if f[0] != "trie" {
 		return "bad-op"
 	}
@@ -112,7 +120,70 @@ func c35tRun(line string) string {
 	return fmt.Sprintf("%s|vlen=%d", strings.Join(outs, ";"), tc.valueCache.lru.ItemCount())
 }
 
+// c35tTable: lock table of TrieInMemoryCache from trie_cache.go.  nodeCache / valueCache are set
+// by the constructor only and are thread-safe objects themselves; any other field a method
+// assigns or reads is shared mutable state and needs a lock.
+func c35tTable() string {
+	t, err := ltTable("trie_cache.go", "TrieInMemoryCache", []string{"nodeCache", "valueCache"})
+	if err != nil || len(t) == 0 {
+		return "table TrieInMemoryCache|unparsable"
+	}
+	return "table TrieInMemoryCache|" + ltText(t)
+}
+
+// c35tConc: `trieconc <seed> <G> <n>`.  G goroutines SetNode/GetNode over a small key set and a
+// small node capacity; the value stored under a key always starts with that key, so every
+// GetNode result must be nil or start with the key asked for.  `foreign` counts the others.
+func c35tConc(f []string) string {
+	if len(f) != 3 {
+		return "bad-op"
+	}
+	seed, _ := strconv.Atoi(f[0])
+	gs, _ := strconv.Atoi(f[1])
+	n, _ := strconv.Atoi(f[2])
+	if gs < 1 || gs > 16 || n < 1 || n > 20000 {
+		return "bad-op"
+	}
+	tc := &TrieInMemoryCache{
+		nodeCache:  lrucache.NewLRUCache[string, []byte](3),
+		valueCache: newLruCache(defaultValueCacheMaxSize),
+	}
+	defer tc.valueCache.lru.Stop()
+	foreign := make([]int, gs)
+	var wg sync.WaitGroup
+	for g := 0; g < gs; g++ {
+		wg.Add(1)
+		go func(g int) {
+			defer wg.Done()
+			r := vhNewRng(uint64(seed*53 + g))
+			for i := 0; i < n; i++ {
+				key := []byte{0x6b, byte(r.Intn(6))}
+				if r.Chance(2, 5) {
+					tc.SetNode(key, append(append([]byte{}, key...), byte(g), byte(i)))
+				} else if v := tc.GetNode(key); v != nil && !bytes.HasPrefix(v, key) {
+					foreign[g]++
+				}
+			}
+		}(g)
+	}
+	wg.Wait()
+	total := 0
+	for _, x := range foreign {
+		total += x
+	}
+	return fmt.Sprintf("foreign=%d", total)
+}
+
+var c35tDrawn int
+
 func c35tGen(r *vhRng) string {
+	c35tDrawn++
+	switch {
+	case c35tDrawn == 1:
+		return c35tTable()
+	case c35tDrawn <= 3 || r.Intn(150) == 0:
+		return fmt.Sprintf("trieconc %d %d %d", r.Intn(100000), 2+r.Intn(6), 2000+r.Intn(3000))
+	}
 	if r.Intn(2000) == 0 {
 		return fmt.Sprintf("defcap %d", r.Pick(9999, 10000, 10001, 10002))
 	}
